@@ -12,6 +12,26 @@ package bplus
 immutable BPlusTreeStore.db by NewBPlusTreeStore
 immutable BPlusKVPairReader.prefix by NewBPlusKVPairReader
 
+// The write path: every mutation of the batch reaches the tree under the key "table prefix
+// byte + user key" with the value it was given. The tree keeps the very slices it is handed
+// (insKeys/insVals record them), so the claim is about what those slices hold WHEN MUTATE
+// RETURNS: a key buffer that a later iteration writes again would break it.
+define storedKey(k) = asptr(insKeys[k], []byte)
+define storedVal(k) = asptr(insVals[k], []byte)
+define keyOf(K, m) = len(K) == 1 + len(m.Key) && K[0] == prefixOf(m.Table) && bytes(K[1:]) == bytes(m.Key)
+func BPlusTreeStore.Mutate
+  props C14
+  requires s.db != nil
+  requires forall k int :: 0 <= k && k < len(mutations) ==> mutations[k] != nil
+  modifies insCount, insKeys, insVals
+  ensures C14/whole-batch-inserted: isnil(result) && insCount == old(insCount) + len(mutations)
+  ensures C14/stored-keys-are-prefix-plus-key: forall k int :: 0 <= k && k < len(mutations) ==> keyOf(storedKey(old(insCount) + k), mutations[k])
+  ensures C14/stored-values-as-given: forall k int :: 0 <= k && k < len(mutations) ==> bytes(storedVal(old(insCount) + k)) == bytes(mutations[k].Value)
+  loop 1 modifies insCount, insKeys, insVals
+  loop 1 invariant C14/one-insert-per-mutation: -1 <= rangeindex && rangeindex < len(mutations) && insCount == old(insCount) + rangeindex + 1
+  loop 1 invariant C14/keys-so-far-are-prefix-plus-key: forall k int :: 0 <= k && k <= rangeindex ==> allocated(storedKey(old(insCount) + k)) && keyOf(storedKey(old(insCount) + k), mutations[k])
+  loop 1 invariant C14/values-so-far-as-given: forall k int :: 0 <= k && k <= rangeindex ==> allocated(storedVal(old(insCount) + k)) && bytes(storedVal(old(insCount) + k)) == bytes(mutations[k].Value)
+
 func BPlusTreeStore.Get
   props C14
   requires s.db != nil
